@@ -296,6 +296,26 @@ Section World.
         end
     end.
 
+  (* HttpStreamSession.seek_to_token(blob): both tokens replaced, pending batches discarded, finished RESET --
+     whatever the session was (fresh, finished by its /init response, read to end-of-stream) *)
+  Definition seek (ss : sess) (tok : rtoken) : sess := {| s_pend := []; s_fin := false; s_ct := Some (fst tok); s_kt := snd tok |}.
+
+  (* HttpStreamSession.__iter__ on an existing session: pending batches, then `if finished: return`,
+     `if state_bytes is None: return`, else follow continuation tokens *)
+  Definition iter_sess (fuel : nat) (c : cb) (w : worker) (ss : sess) : list event * list (N * bool) * worker :=
+    match s_fin ss, s_ct ss with
+    | false, Some ct => let '(es, tr, w') := follow fuel c w ct (s_kt ss) in (map EBatch (s_pend ss) ++ es, tr, w')
+    | _, _ => (map EBatch (s_pend ss) ++ [EDone], [], w)
+    end.
+
+  (* the relay pattern: a FRESH stream of the same method on worker w (call id cid'), seek_to_token, iterate.
+     [None]: the fresh call itself raised (no session to seek on). *)
+  Definition seek_fresh_iter (fuel : nat) (c : cb) (w : worker) (sh : shape) (pid cid' : N) (tok : rtoken) : option (list event * list (N * bool)) :=
+    match open_sess w sh pid cid' with
+    | inl _ => None
+    | inr (ss, w1) => let '(es, tr, _) := iter_sess fuel c w1 (seek ss tok) in Some (es, tr)
+    end.
+
   (* proxy.resume_stream(method, blob) / fresh session + seek_to_token(blob), then iterate to exhaustion on worker w *)
   Definition resume_iter (fuel : nat) (c : cb) (w : worker) (tok : rtoken) : list event * list (N * bool) * worker :=
     follow fuel c w (fst tok) (snd tok).
@@ -333,12 +353,13 @@ Definition nres_tok (r : nres) : list rtoken := match r with NItem _ (Some t) =>
 (* a case: program, shape, measured sizes, origin worker, scenario.
    scenario 0: iterate on the origin worker.
    scenario 1: next_with_token to the end on the origin worker; then, for every resume token handed out, resume on
-               (a) the origin worker as it is now (warm), (b) each of the other workers given, fresh (cold). *)
-Definition case_in := (stream_prog * shape * (size_tab * N) * wspec * list wspec * N)%type.
+               (a) the origin worker as it is now (warm), (b) each of the other workers given, fresh (cold),
+               (c) a fresh stream + seek_to_token on each of the seekers, (d) the origin's own exhausted session, rewound. *)
+Definition case_in := (stream_prog * shape * (size_tab * N) * wspec * (list wspec * list wspec) * N)%type.
 Definition case_out := list (list event * list (N * bool)).
 
 Definition run_case (x : case_in) : case_out :=
-  let '(sp, sh, (tab, bs), w0s, others, scen) := x in
+  let '(sp, sh, (tab, bs), w0s, (others, seekers), scen) := x in
   let progs := fun _ : N => sp in
   let fuel := S (S (List.length (steps sp))) in
   let w0 := mk_worker tab bs w0s in
@@ -352,7 +373,12 @@ Definition run_case (x : case_in) : case_out :=
         (flat_map nres_event rs, [])
         :: flat_map (fun tok =>
              (let '(es, tr, _) := resume_iter progs fuel CbRecord w2 tok in (es, tr))
-             :: map (fun o => let '(es, tr, _) := resume_iter progs fuel CbRecord (mk_worker tab bs o) tok in (es, tr)) others)
+             :: map (fun o => let '(es, tr, _) := resume_iter progs fuel CbRecord (mk_worker tab bs o) tok in (es, tr)) others
+             (* init + seek_to_token on fresh sessions of other workers (their /init may already have finished the stream) *)
+             ++ map (fun o => match seek_fresh_iter progs fuel CbRecord (mk_worker tab bs o) sh 7 101 tok with
+                              | Some r => r | None => ([EBlocked], []) end) seekers
+             (* rewind: the origin's own session, read to end-of-stream, then seek_to_token *)
+             ++ [let '(es, tr, _) := iter_sess progs fuel CbRecord w2 (seek ss tok) in (es, tr)])
            (flat_map nres_tok rs)
     end.
 
